@@ -47,3 +47,9 @@ open Pcore.ConcQueue
 #print axioms C13_queue_impl_exactly_once
 #print axioms C13_queue_full_fails_reslice
 #print axioms C13_queue_full_fails_keep
+-- added by the audit (notes/audit-C13.md): the witness of the per-level reading of C13_agree, and the three helper lemmas of
+-- the lock-set section that live in the Props file
+#print axioms C13_agree_is_per_level
+#print axioms Pcore.Lockset.holds_iff
+#print axioms Pcore.Lockset.excl_of_held
+#print axioms Pcore.Lockset.guarded_holds
